@@ -1,5 +1,5 @@
 import PepperProofs.ConstraintGenFiles
-import PepperProofs.ConstraintGenLoad
+import PepperProofs.ConstraintGenTotal
 /-!
 # C05 — the constraint files honour the documented spuriousSSM input contract
 
@@ -42,6 +42,16 @@ theorem files_satisfy_contract_partial {mode : Layout} {stmts : List Stmt} {spec
     have ct := contract_of_exact wf G
     refine ⟨tripleOf a, readTriple_ssmFiles (arrFacts_of_exact wf G), ct.2.1, ct.2.2.1, decide_eq_true ct,
       fun pick => consistent_of_contract ct pick⟩
+
+/-- The same for the strand layout (the default), with the seeding hypotheses discharged. -/
+theorem files_satisfy_contract_strand_partial {stmts : List Stmt} {spec : Spec}
+    (hload : Pil.load Generated.nupackTable stmts {} = .ok spec)
+    {a : Arrays} (ha : getConstraints .strand spec = .ok a) :
+    ∃ t, readTriple (ssmFiles a) = some t ∧ t.eq.length = t.N ∧ t.wc.length = t.N ∧
+      Ssm.contractB t = true ∧
+      ∀ pick : Nat → Nat, Ssm.testConsistency t (Ssm.constrain t (startOf t pick)) = true := by
+  obtain ⟨s, c, hs, hb⟩ := seeding_total_strand (load_wf hload)
+  exact files_satisfy_contract_partial hload hs hb ha
 
 /-- The documented contract implies acceptance by `test_consistency` on the constrained start sequence, for any
     triple (not only the generated ones) and any random draws. -/
